@@ -113,6 +113,37 @@ def _codec(fv):
                 n.col_offset = n.end_col_offset = 0
     else:
         fn = node
+    # a codec made by a factory (`_struct_codec("<L")`) closes over the factory's arguments: the abstract interpreter knows them
+    try:
+        cv = fv.closure_vars()
+    except Exception:
+        cv = {}
+    bound = set(names) | {x.id for x in ast.walk(fn) if isinstance(x, ast.Name) and isinstance(x.ctx, ast.Store)}
+    free = {x.id for x in ast.walk(fn) if isinstance(x, ast.Name) and isinstance(x.ctx, ast.Load)} - bound
+    subst = {}
+    for nm in free:
+        if nm in cv:
+            v = cv[nm]
+            if v is None or isinstance(v, (bool, int, str, bytes)):
+                subst[nm] = ast.Constant(v)
+            elif isinstance(v, (FuncVal, ClassVal)) and getattr(v, "name", None):
+                subst[nm] = ast.Name(v.name, ast.Load())
+    if subst:
+        import copy as _copy
+
+        class _S(ast.NodeTransformer):
+            def visit_Compare(s_, n):
+                if len(n.ops) == 1 and isinstance(n.ops[0], (ast.Is, ast.IsNot)) and isinstance(n.left, ast.Name) and isinstance(subst.get(n.left.id), ast.Name) \
+                        and isinstance(n.comparators[0], ast.Constant) and n.comparators[0].value is None:
+                    return ast.copy_location(ast.Constant(isinstance(n.ops[0], ast.IsNot)), n)      # a function is not None
+                return s_.generic_visit(n)
+
+            def visit_Name(s_, n):
+                if isinstance(n.ctx, ast.Load) and n.id in subst:
+                    return ast.copy_location(_copy.deepcopy(subst[n.id]), n)
+                return n
+        fn = _S().visit(_copy.deepcopy(fn))
+        ast.fix_missing_locations(fn)
     ren = {n: "p%d" % i for i, n in enumerate(names)}
     w = sym.SymWalker(fn, sym.Canon(None, None))
     w.run()
